@@ -23,6 +23,7 @@ RULE = ('(i) EXHAUSTIVE: every byte string of length 0..3 over a 28-octet struct
         'not a placeholder) plus bytes, or raises a PyAsn1Error; everything else is a violation bucketed by (exception type, '
         'innermost library frame). Non-trivial = the input is at least 2 octets and is not a valid encoding of the guiding type; '
         'distinct = distinct (input, decoder, mode, guiding type).')
+RULE += (' ' + "Also: directed inputs - lengths at sys.maxsize, records with open type fields (decoded with decodeOpenTypes=True), a member arriving twice, and numbers spelled with thousands of digits (decimal REALs in the three ISO 6093 forms, time fractions, huge integers and arcs); the library runs under the interpreter's default int/str digit limit.")
 ASSUMPTIONS = ['reads are counted by the stream double (pv/core/streams.py)']
 BUDGET = {'quick': 100, 'thorough': 2400}
 MIN_NONTRIVIAL = {'quick': 1000, 'thorough': 10000}
